@@ -24,7 +24,7 @@ TPeerReply == IsEvent("peer_reply") /\ PeerReply(Rec[l].to) /\ UNCHANGED routing
 TFrame == IsEvent("rx_frame") /\ routing = 0 /\ routing' = 1 /\ inbox # <<>> /\ UNCHANGED vars
 SilentRoute == routing = 1 /\ Route /\ routing' = 2 /\ UNCHANGED l
 TRouted == IsEvent("rx_routed") /\ routing = 2 /\ routing' = 0 /\ UNCHANGED vars
-TraceNext == TAlloc \/ TInsert \/ TSend \/ TTimeout \/ TReturn \/ TPeerReply \/ TFrame \/ SilentRoute \/ TRouted
+TraceNext == (TAlloc \/ TInsert \/ TSend \/ TTimeout \/ TReturn \/ TPeerReply \/ TFrame \/ SilentRoute \/ TRouted) /\ UNCHANGED otherUp
 TraceSpec == TraceInit /\ [][TraceNext]_tvars
 \* reaching the end of the trace is reported by TLC as a violation of this "invariant": that is the acceptance signal
 NotFinished == l <= Len(Rec)
